@@ -207,6 +207,48 @@ def writer_files(item):
     return res
 
 
+def replaced_in_place(item):
+    """A recording and its index are read, then both files are replaced in place by another recording of exactly the same sizes
+    and given the same modification times (a restore from backup, an rsync --times, a fast re-run on a coarse-grained file
+    system), and read again in the same process: each read must equal the read of the same bytes without an index."""
+    seed = item
+    res = {'counters': {'files': 0, 'reads': 0, 'nontrivial': 0}, 'outcomes': {}, 'violations': [], 'samples': []}
+    pairs = [('Int32', 'SingleFloat'), ('Int64', 'DoubleFloat'), ('Uint16', 'Int16')]
+    for ta, tb in pairs:
+        files = []
+        for t, pv in ((ta, '01000000'), (tb, '02000000')):
+            h = [G.seg([('/', ['NODATA'], [['run', 'Int32', pv]]), (F.A, ['FULL', t, 3]), (F.B, ['FULL', 'Int8', 2])], chunks=2),
+                 G.seg([], meta=False, chunks=1)]
+            files.append(G.encode(h, seed=seed, index=True)[:2])
+        if len(files[0][0]) != len(files[1][0]) or len(files[0][1]) != len(files[1][1]):
+            continue
+        tmp = H.scratch('verif_c09r_')
+        path = os.path.join(tmp, 'rec.tdms')
+        try:
+            for k, (d, ix) in enumerate(files + files[:1]):
+                with open(path, 'wb') as f:
+                    f.write(d)
+                with open(path + '_index', 'wb') as f:
+                    f.write(ix)
+                for p_ in (path, path + '_index'):
+                    os.utime(p_, (1700000000, 1700000000))
+                res['counters']['files'] += 1
+                res['counters']['nontrivial'] += 1
+                for mn, fn in (('read', lambda s_: summary(H.TdmsFile.read(s_))),
+                               ('open', lambda s_: _with(H.TdmsFile.open(s_), lambda tf: summary(tf, lazy=True))),
+                               ('read_metadata', lambda s_: summary(H.TdmsFile.read_metadata(s_), data=False))):
+                    plain = H.guarded(fn, io.BytesIO(d))
+                    there = H.guarded(fn, path)
+                    res['counters']['reads'] += 2
+                    if plain != there:
+                        res['violations'].append({'case': {'replaced': [ta, tb], 'step': k, 'mode': mn, 'seed': seed},
+                                                  'expected': 'same as the same bytes without index', 'observed': _diff(plain, there),
+                                                  'signature': {'kind': 'replaced-in-place', 'mode': mn}})
+        finally:
+            shutil.rmtree(tmp, ignore_errors=True)
+    return res
+
+
 def writer_inplace(item):
     """Two files written by path with index_file=True into one directory, under names that share a stem or lack the .tdms
     extension; each is then read where it lies (the reader looks for <path>_index) and must read as its own bytes read without
@@ -278,7 +320,8 @@ def run(ctx):
     m = merge(ctx.map(run_file, items))
     from .. import writerprog as W
     mw = merge(ctx.map(writer_files, [(ai, ctx.seed) for ai in range(len(W.assignments()))]) +
-               ctx.map(writer_inplace, [(ai, ctx.seed) for ai in range(0, len(W.assignments()), 5)]))
+               ctx.map(writer_inplace, [(ai, ctx.seed) for ai in range(0, len(W.assignments()), 5)]) +
+               ctx.map(replaced_in_place, [ctx.seed]))
     c = m['counters']
     vac = []
     if not c.get('index_only'):
@@ -296,6 +339,10 @@ def run(ctx):
 
 
 def replay(case):
+    if 'replaced' in case:
+        r = replaced_in_place(case.get('seed', 0))
+        hits = [v for v in r['violations'] if v['case']['replaced'] == case['replaced'] and v['case']['mode'] == case['mode']]
+        return bool(hits), 'same as the same bytes without index', hits[0]['observed'] if hits else 'same'
     if 'inplace' in case:
         r = writer_inplace((case['ai'], 0))
         hits = [v for v in r['violations'] if v['case']['inplace'] == case['inplace'] and v['case']['which'] == case['which']]
